@@ -90,6 +90,9 @@ def ubsan_class(msg):
 
 def classify_death(seg, rc, fate):
     """(kind, func, excerpt) for a worker that died inside a case.  seg = stderr of that case."""
+    am = re.search(r"(\w+): Assertion `(.*)' failed", seg)
+    if am:
+        return "assert", am.group(1), seg[max(0, am.start() - 300):][:2500]
     m = re.search(r"ERROR: AddressSanitizer: (.*)", seg)
     if m:
         what = m.group(1)
